@@ -45,25 +45,31 @@ TEXT_RANKS = sorted(["", " ", "A", "B", "Z", "a", "ab", "abc", "b", "z", "é", "
 DECIMAL_SCALES = (10, 100, 1000)
 
 
-def actual_value(x, scale, mixed, vkind="number"):
+def actual_value(x, scale, mixed, vkind="number", negzero=False):
     if x is None:
         return None
     if vkind == "text":
         return TEXT_RANKS[x]
+    if vkind == "bool":
+        return bool(x)  # cells are 0 / 1; Python counts True as 1 in sum()
     if vkind == "decimal":
+        if mixed and x % scale == 0:
+            return x // scale  # an int among the Decimals: int + Decimal is exact
         return Decimal(x).scaleb(-(len(str(scale)) - 1))  # exactly x / scale
     if scale == 1:
         return x
     if mixed and x % scale == 0:
         return x // scale
+    if negzero and x == 0:
+        return -0.0
     return x / scale
 
 
 def actual_rows(case):
     cols = case["columns"]
     vidx = {i for i, c in enumerate(cols) if c in case["vcols"]}
-    s, m, k = case.get("scale", 1), case.get("mixed", False), case.get("vkind", "number")
-    return [tuple(actual_value(x, s, m, k) if i in vidx else x for i, x in enumerate(r)) for r in case["rows"]]
+    s, m, k, z = case.get("scale", 1), case.get("mixed", False), case.get("vkind", "number"), case.get("negzero", False)
+    return [tuple(actual_value(x, s, m, k, z) if i in vidx else x for i, x in enumerate(r)) for r in case["rows"]]
 
 
 def allowed_funcs(case):
@@ -80,12 +86,12 @@ def valid_case(c):
         if not isinstance(c["keys"], list) or not c["keys"]:
             return False
         vkind = c.get("vkind", "number")
-        if vkind not in ("number", "text", "decimal"):
+        if vkind not in ("number", "text", "decimal", "bool"):
             return False
         if vkind == "decimal":
             if c.get("scale", 1) not in DECIMAL_SCALES:
                 return False
-        elif vkind == "text":
+        elif vkind in ("text", "bool"):
             if c.get("scale", 1) != 1:
                 return False
         elif c.get("scale", 1) not in (1, 2, 4, 8):
@@ -103,6 +109,8 @@ def valid_case(c):
                     if not (x is None or (isinstance(x, int) and not isinstance(x, bool))):
                         return False
                     if vkind == "text" and x is not None and not 0 <= x < len(TEXT_RANKS):
+                        return False
+                    if vkind == "bool" and x is not None and x not in (0, 1):
                         return False
                     if vkind == "decimal" and x is not None and abs(x) >= 10**20:
                         return False
@@ -133,12 +141,17 @@ def valid_case(c):
             elif via == "count":
                 if c["reqs"] != [["COUNT", "*"]]:
                     return False
+            elif via == "aggregate_bare":
+                if len(c["reqs"]) != 1:
+                    return False
             elif via != "aggregate":
                 return False
+        if c.get("key_container", "list") not in ("list", "tuple") or c.get("col_container", "list") not in ("list", "tuple", "set"):
+            return False
         for b in c.get("backings", ["list"]):
-            if b not in ("list", "gen", "dicts", "schema"):
+            if b not in BACKINGS:
                 return False
-        if "*" in cols:
+        if "*" in cols or "zz#" in cols:
             return False
         return True
     except Exception:
@@ -162,6 +175,12 @@ def in_domain(case):
 # --------------------------------------------------------------------------- implementation
 
 
+BACKINGS = ("list", "gen", "dicts", "schema", "select", "filter", "take", "genselect")
+# lazily backed: `_rows` is a generator until something materialises the frame
+LAZY = {"gen", "select", "filter", "take", "genselect"}
+_JUNK = ("junk", -7, None)
+
+
 def _frame(case, backing):
     from orso import DataFrame
 
@@ -169,6 +188,26 @@ def _frame(case, backing):
     cols = list(case["columns"])
     if backing == "gen":
         return DataFrame(rows=(r for r in rows), schema=cols)
+    if backing in ("select", "genselect"):
+        # the projection of a wider frame (materialised, or itself lazily backed): select() hands a generator on
+        wide = [tuple(r) + ("zz",) for r in rows]
+        parent = DataFrame(rows=(wide if backing == "select" else (r for r in wide)), schema=cols + ["zz#"])
+        return parent.select(cols)
+    if backing in ("filter", "take"):
+        # the frame's rows interleaved with rows that are filtered away / not taken
+        junk = tuple(_JUNK[i % 3] for i in range(len(cols)))
+        mixed, keep = [], []
+        for i, r in enumerate(rows):
+            if i % 2 == 0:
+                mixed.append(junk)
+            keep.append(len(mixed))
+            mixed.append(tuple(r))
+        mixed.append(junk)
+        parent = DataFrame(rows=mixed, schema=cols)
+        if backing == "filter":
+            ks = set(keep)
+            return parent.filter([i in ks for i in range(len(mixed))])
+        return parent.take(keep)
     if backing == "dicts" and rows:
         return DataFrame([dict(zip(cols, r)) for r in rows])
     if backing == "schema":
@@ -182,7 +221,9 @@ def _frame(case, backing):
 
 def _group_by(df, case):
     keys = case["keys"]
-    return df.group_by(keys[0] if (len(keys) == 1 and case.get("bare_key")) else list(keys))
+    if len(keys) == 1 and case.get("bare_key"):
+        return df.group_by(keys[0])
+    return df.group_by(tuple(keys) if case.get("key_container") == "tuple" else list(keys))
 
 
 def _call(gb, case):
@@ -195,11 +236,15 @@ def _call(gb, case):
             via = case.get("via", "aggregate")
             if via == "aggregate":
                 res = gb.aggregate([(f, c) for f, c in case["reqs"]])
+            elif via == "aggregate_bare":
+                res = gb.aggregate(tuple(case["reqs"][0]))  # one request, not wrapped in a list
             elif via == "count":
                 res = gb.count()
             else:
                 colsr = [c for _, c in case["reqs"]]
-                res = getattr(gb, via)(colsr[0] if len(colsr) == 1 and case.get("bare_col") else colsr)
+                cc = case.get("col_container")
+                res = getattr(gb, via)(colsr[0] if len(colsr) == 1 and case.get("bare_col") else
+                                       tuple(colsr) if cc == "tuple" else set(colsr) if cc == "set" else colsr)
         header = [str(c) for c in res.column_names]
         rows = []
         for r in res:  # a for loop: list(lazy frame) is [] on the pinned tree
@@ -220,7 +265,13 @@ def run_impl(case, backing="list"):
 
 # ---- sequences of calls on one (or two) GroupBy objects of one frame
 
-SUB_KEYS = ("columns", "vcols", "rows", "scale", "mixed", "vkind")
+SUB_KEYS = ("columns", "vcols", "rows", "scale", "mixed", "vkind", "negzero")
+# uses of the frame itself between two grouping calls; none of them may change any later result
+NOOPS = ("len", "rowcount", "peek")
+
+
+def is_noop(el):
+    return el.get("op") in NOOPS
 
 
 def sub_case(case, el):
@@ -229,7 +280,7 @@ def sub_case(case, el):
     c["keys"] = case["gbs"][el.get("gb", 0)]
     c["op"] = el.get("op", "aggregate")
     c["reqs"] = el.get("reqs", [])
-    for k in ("via", "bare_col", "bare_key"):
+    for k in ("via", "bare_col", "bare_key", "key_container", "col_container"):
         if k in el:
             c[k] = el[k]
     return c
@@ -239,13 +290,19 @@ def valid_seq_case(c):
     try:
         if not isinstance(c.get("gbs"), list) or not c["gbs"] or not isinstance(c.get("seq"), list) or not c["seq"]:
             return False
+        if all(is_noop(el) for el in c["seq"] if isinstance(el, dict)):
+            return False
         for el in c["seq"]:
-            if not isinstance(el, dict) or not isinstance(el.get("gb", 0), int) or not 0 <= el.get("gb", 0) < len(c["gbs"]):
+            if not isinstance(el, dict):
+                return False
+            if is_noop(el):
+                continue
+            if not isinstance(el.get("gb", 0), int) or not 0 <= el.get("gb", 0) < len(c["gbs"]):
                 return False
             if not valid_case(sub_case(c, el)):
                 return False
         for b in c.get("backings", ["list"]):
-            if b not in ("list", "gen", "dicts", "schema"):
+            if b not in BACKINGS:
                 return False
         return True
     except Exception:
@@ -258,6 +315,18 @@ def run_impl_seq(case, backing="list"):
     gbs = {}
     out = []
     for el in case["seq"]:
+        if is_noop(el):
+            try:
+                if el["op"] == "len":
+                    len(df)
+                elif el["op"] == "rowcount":
+                    df.rowcount
+                else:
+                    next(iter(df), None)  # start walking the frame and stop after one row
+                out.append(("noop",))
+            except Exception as e:  # noqa: BLE001
+                out.append(("err", type(e).__name__))
+            continue
         sub = sub_case(case, el)
         g = el.get("gb", 0)
         try:
@@ -269,35 +338,42 @@ def run_impl_seq(case, backing="list"):
     return out
 
 
-def oracle_seq(case, ctx=None):
+def oracle_seq(case, ctx=None, by_backing=None):
     """The property on every call of the sequence. Returns (clause|None, results of the first backing).
 
-    Generator-backed frames: DataFrame.__iter__ materialises a lazily backed frame (repair C03-F04), so
-    a second grouping of the same frame sees the same rows as the first; "one at a time or several
-    together" and "lazily backed or materialised" make every call of the sequence subject to the
-    property, and every call is judged (seeded change C12-w2s2: GroupBy._map reading the backing
-    store directly consumes the generator, later calls see no rows)."""
+    Lazily backed frames (a generator handed to DataFrame, the result of select / filter / take):
+    DataFrame.__iter__ materialises the frame (repair C03-F04), so a second grouping of the same frame sees
+    the same rows as the first; "one at a time or several together" and "lazily backed or materialised"
+    make every call of the sequence subject to the property, and every call is judged (seeded change
+    C12-w2s2: GroupBy._map reading the backing store directly consumes the generator, later calls see no
+    rows)."""
     first = None
     for b in case.get("backings", ["list"]):
         res = run_impl_seq(case, b)
+        if by_backing is not None:
+            by_backing[b] = res
         if first is None:
             first = res
         used = set()
         for i, (el, impl) in enumerate(zip(case["seq"], res)):
+            if is_noop(el):
+                if impl[0] == "err":
+                    return "%s of the frame raised %s [%s-backed]" % (el["op"], impl[1], b), res
+                continue
             sub = sub_case(case, el)
             want = mirror(sub)
             g = el.get("gb", 0)
-            if b == "gen" and i > 0 and ctx is not None:
-                ctx.hit("gen-later-call:" + ("as-reference" if compare(sub, impl, want) is None
-                                             else "err" if impl[0] == "err" else "no-rows" if not impl[2] else "other"))
             cl = compare(sub, impl, want)
+            if b in LAZY and i > 0 and ctx is not None:
+                ctx.hit("lazy-later-call:" + ("as-reference" if cl is None else "err" if impl[0] == "err"
+                                              else "no-rows" if not impl[2] else "other"))
             if cl is not None:
                 if g in used:
                     cl = "a later call on the same GroupBy object: " + cl
                 elif i > 0:
                     cl = "a call on a second GroupBy object of the same frame: " + cl
                 if b != "list":
-                    cl += " [%s-backed]" % b
+                    cl += " [%s-backed]" % ("gen" if b == "gen" else "lazily " + b if b in LAZY else b)
                 return cl, res
             used.add(g)
     return None, first
@@ -309,7 +385,7 @@ def model_lines_seq(case):
     for g, keys in enumerate(case["gbs"]):
         ops = []
         for el in case["seq"]:
-            if el.get("gb", 0) == g:
+            if not is_noop(el) and el.get("gb", 0) == g:
                 ops.append(["groups"] if el.get("op", "aggregate") == "groups" else ["aggregate", el["reqs"]])
         lines.append("C12 sequence " + wire.line(case["columns"], case["rows"], keys, ops))
     return lines
@@ -326,6 +402,9 @@ def model_results_seq(case, texts):
     pos = [0] * len(per_gb)
     out = []
     for el in case["seq"]:
+        if is_noop(el):
+            out.append(("noop",))
+            continue
         g = el.get("gb", 0)
         m = per_gb[g]
         if m[0] == "err":
@@ -336,38 +415,110 @@ def model_results_seq(case, texts):
     return out
 
 
+# ---- the code-level model: the program read from the working tree, interpreted by the Lean driver
+
+
+def code_line_seq(case, lazy):
+    """The driver line for the whole sequence (all objects of the one frame), or None when a key column
+    is not in the frame (the code-level model is not asked about that error path)."""
+    cols = case["columns"]
+    if any(k not in cols for keys in case["gbs"] for k in keys):
+        return None
+    calls = []
+    for el in case["seq"]:
+        if not is_noop(el):
+            calls.append([el.get("gb", 0), ["groups"] if el.get("op", "aggregate") == "groups" else ["aggregate", el["reqs"]]])
+    return "C12 code_calls " + wire.line(cols, case["rows"], bool(lazy), case["gbs"], calls)
+
+
+def code_results_seq(case, text):
+    """Decode the code-level model's answer, one result per element of the sequence (None: not answered)."""
+    if not text.startswith("ok "):
+        return None  # outside what the code-level model is asked (bad-op)
+    (m,) = wire.dec_all(text[3:])
+    it = iter(m)
+    out = []
+    for el in case["seq"]:
+        if is_noop(el):
+            out.append(("noop",))
+            continue
+        r = next(it)
+        out.append(("err", r[1]) if r[0] == "err" else _unscale(sub_case(case, el), r))
+    return out
+
+
+def as_seq(case):
+    """A single-call case as a one-element sequence (for the code-level model)."""
+    c = {k: case[k] for k in SUB_KEYS if k in case}
+    c["gbs"] = [list(case["keys"])]
+    c["seq"] = [{"op": case.get("op", "aggregate"), "reqs": case.get("reqs", []), "gb": 0}]
+    return c
+
+
+def compare_code(case, impl_by_backing, code_by_lazy):
+    """The implementation against the code-level model (eager against eager, lazily backed against lazy).
+    Returns a description of the first difference, or None."""
+    for b, res in impl_by_backing.items():
+        code = code_by_lazy.get(b in LAZY)
+        if code is None:
+            continue
+        for i, (el, r, m) in enumerate(zip(case["seq"], res, code)):
+            if is_noop(el):
+                continue
+            sub = sub_case(case, el)
+            if m[0] == "err":
+                if r[0] != "err":
+                    return "call %d [%s]: the model read from the source raises %s, the implementation does not" % (i, b, m[1])
+                continue  # the class of an exception is not compared
+            cl = compare(sub, r, m)
+            if cl is not None:
+                return "call %d [%s]: %s" % (i, b, cl)
+    return None
+
+
 def evaluate_seq(ctx, cases):
-    lines, spans = [], []
+    lines, spans, clines, cspans = [], [], [], []
     for c in cases:
         if not valid_seq_case(c):
             raise InfraError("generator produced an invalid sequence case: %r" % (c,))
         ls = model_lines_seq(c)
         spans.append((len(lines), len(ls)))
         lines.extend(ls)
+        want_lazy = sorted({b in LAZY for b in c.get("backings", ["list"])})
+        cl = [(z, code_line_seq(c, z)) for z in want_lazy]
+        cl = [(z, l) for z, l in cl if l is not None]
+        cspans.append((len(clines), [z for z, _ in cl]))
+        clines.extend(l for _, l in cl)
     mouts = ctx.model.batch(lines)
-    for c, (lo, n) in zip(cases, spans):
-        subs = [sub_case(c, el) for el in c["seq"]]
+    couts = ctx.model.batch(clines)
+    for c, (lo, n), (clo, zs) in zip(cases, spans, cspans):
+        subs = [None if is_noop(el) else sub_case(c, el) for el in c["seq"]]
         for sub in subs:
-            if not in_domain(sub):
+            if sub is not None and not in_domain(sub):
                 raise InfraError("generator left the domain where == and structural equality coincide: %r" % (c,))
-        wants = [mirror(sub) for sub in subs]
+        wants = [None if sub is None else mirror(sub) for sub in subs]
         mres = model_results_seq(c, mouts[lo:lo + n])
         for sub, w, m in zip(subs, wants, mres):
-            if not same_expected(w, m):
+            if sub is not None and not same_expected(w, m):
                 raise InfraError("Lean model and Python mirror differ inside a sequence %r:\n model  %r\n mirror %r" % (c, m, w))
-        ctx.case(c, len(c["rows"]) >= 2 and len(c["seq"]) >= 2)
-        ctx.hit("seq-len:%s" % (len(c["seq"]) if len(c["seq"]) < 4 else "4+"))
+        code = {z: code_results_seq(c, couts[clo + j]) for j, z in enumerate(zs)}
+        ncalls = sum(1 for el in c["seq"] if not is_noop(el))
+        ctx.case(c, len(c["rows"]) >= 2 and ncalls >= 2)
+        ctx.hit("seq-len:%s" % (ncalls if ncalls < 4 else "4+"))
         ctx.hit("seq-objects:%d" % len(c["gbs"]))
+        if len({tuple(sorted(g)) for g in c["gbs"]}) > 1:
+            ctx.hit("seq-objects-with-different-key-columns")
         ctx.hit("rows:%s" % (len(c["rows"]) if len(c["rows"]) < 7 else "7-19" if len(c["rows"]) < 20 else "20+"))
         for el in c["seq"]:
-            ctx.hit("seq-op:" + ("groups" if el.get("op") == "groups" else el.get("via", "aggregate")))
+            ctx.hit("seq-op:" + (el["op"] if is_noop(el) else "groups" if el.get("op") == "groups" else el.get("via", "aggregate")))
         if any(a == b for a, b in zip(c["seq"], c["seq"][1:])):
             ctx.hit("seq-identical-repeat")
         for b in c.get("backings", ["list"]):
             ctx.hit("backing:" + b)
         if len(ctx.violations) >= 4:
             return
-        clause, impl = oracle_seq(c, ctx)
+        by_backing = {}
+        clause, impl = oracle_seq(c, ctx, by_backing)
         if clause is not None and _norm(clause) in _SEEN_CLAUSES.setdefault(id(ctx), set()):
             ctx.hit("violation-dup:" + _norm(clause))
             continue
@@ -375,27 +526,74 @@ def evaluate_seq(ctx, cases):
             _SEEN_CLAUSES[id(ctx)].add(_norm(clause))
 
             def still(c2, clause=clause):
-                if not valid_seq_case(c2) or not all(in_domain(sub_case(c2, el)) for el in c2["seq"]):
+                if not valid_seq_case(c2) or not all(in_domain(sub_case(c2, el)) for el in c2["seq"] if not is_noop(el)):
                     return False
                 try:
                     return _norm(oracle_seq(c2)[0]) == _norm(clause)
                 except InfraError:
                     return False
             c_min = c if ctx.replaying else shrink(c, still)
-            cl2, impl2 = oracle_seq(c_min)
+            by2 = {}
+            cl2, impl2 = oracle_seq(c_min, None, by2)
             try:
                 m2 = model_results_seq(c_min, ctx.model.batch(model_lines_seq(c_min)))
             except InfraError:
                 m2 = None
-            ctx.fail(c_min, cl2 or clause, impl=[_show(r) for r in impl2], model=None if m2 is None else [_show(r) for r in m2])
+            ctx.fail(c_min, cl2 or clause, impl=[_show(r) for r in impl2], model=None if m2 is None else [_show(r) for r in m2],
+                     detail=_code_detail(ctx, c_min, by2))
             continue
         for i, (sub, r, m) in enumerate(zip(subs, impl, mres)):
+            if sub is None:
+                continue
             cl = compare(sub, r, m)
             if cl is not None:
                 ctx.disagree(c, [_show(x) for x in impl], [_show(x) for x in mres], what="call %d: %s" % (i, cl))
                 break
         else:
             ctx.hit("sequence:every-call-as-alone")
+            _code_verdict(ctx, c, by_backing, code, mres)
+
+
+def _code_verdict(ctx, seq_case, by_backing, code, mres=None):
+    """Correspondence of the code-level model (the program read from the source) with the implementation.
+    `mres`: the functional model's results, already found to agree with the implementation on every backing
+    the oracle ran; a code-level answer equal to them needs no second comparison."""
+    if not code or all(v is None for v in code.values()):
+        ctx.hit("model-read-from-source:not-asked")
+        return
+    if mres is not None and all(v is None or (len(v) == len(mres) and all(
+            a[0] == b[0] and (a[0] == "noop" or same_expected(a, b)) for a, b in zip(v, mres))) for v in code.values()):
+        ctx.hit("model-read-from-source:as-implementation")
+        return
+    what = compare_code(seq_case, by_backing, code)
+    if what is None:
+        ctx.hit("model-read-from-source:as-implementation")
+    else:
+        first_b = next(iter(by_backing))
+        ctx.disagree(seq_case, [_show(x) for x in by_backing[first_b]],
+                     [_show(x) for x in code.get(first_b in LAZY) or []],
+                     what="the model read from the source and the implementation differ: " + what)
+
+
+def _code_detail(ctx, seq_case, by_backing):
+    """For a failing input: does the program read from the source, interpreted, show the same behaviour?"""
+    try:
+        out = {}
+        for z in sorted({b in LAZY for b in by_backing}):
+            line = code_line_seq(seq_case, z)
+            if line is None:
+                continue
+            res = code_results_seq(seq_case, ctx.model.one(line))
+            if res is not None:
+                out["lazy" if z else "materialised"] = [_show(r) for r in res]
+        if not out:
+            return None
+        code = {z: code_results_seq(seq_case, ctx.model.one(code_line_seq(seq_case, z))) for z in sorted({b in LAZY for b in by_backing})}
+        what = compare_code(seq_case, by_backing, code)
+        return {"model_read_from_source": out,
+                "model_read_from_source_reproduces_the_implementation": what is None}
+    except Exception as e:  # noqa: BLE001 - never let the extra detail hide the failing input
+        return {"model_read_from_source": "not available (%s)" % type(e).__name__}
 
 
 # --------------------------------------------------------------------------- mirror of the spec
@@ -404,8 +602,10 @@ def evaluate_seq(ctx, cases):
 def exact(v):
     if isinstance(v, str):
         return v  # text values: only MIN, MAX and COUNT are asked of them
-    if isinstance(v, bool) or v is None:
+    if v is None:
         raise InfraError("not a number: %r" % (v,))
+    if isinstance(v, bool):
+        return Fraction(int(v))  # a boolean value column: True counts as 1 (Python's sum)
     return Fraction(v)
 
 
@@ -535,14 +735,17 @@ def same_expected(a, b):
 # --------------------------------------------------------------------------- the property on outputs
 
 
-def cell_ok(func, got, want):
+def cell_ok(func, got, want, vkind="number"):
     """Is the implementation's cell `got` the aggregate `want` (None | Fraction)?"""
     if want is None:
         return got is None
     if isinstance(want, str):
         return isinstance(got, str) and got == want
-    if got is None or isinstance(got, bool):
+    if got is None:
         return False
+    if isinstance(got, bool):
+        # the least / greatest member of a boolean column is a boolean
+        return vkind == "bool" and func in ("MIN", "MAX") and Fraction(int(got)) == want
     if func == "COUNT":
         return isinstance(got, int) and got == want
     if isinstance(got, float) and not math.isfinite(got):
@@ -593,7 +796,7 @@ def compare(case, impl, want):
             return "not one output row per distinct key (a key has no row)"
         remaining.remove(hit)
         for name, f in funcs.items():
-            if not cell_ok(f, rows[hit][pos[name]], wr[wpos[name]]):
+            if not cell_ok(f, rows[hit][pos[name]], wr[wpos[name]], case.get("vkind", "number")):
                 return "%s differs from the reference over the group's non-null values" % (
                     "COUNT(*)" if name == "COUNT(*)" else f)
     return None
@@ -610,6 +813,8 @@ def canonical(impl):
 
 def _c(v):
     if isinstance(v, float):
+        if math.isfinite(v):
+            return "n%s" % Fraction(v)  # by value: MIN of 0.0 and -0.0 may be either zero
         return "f%016x" % wire.fbits(v)
     if isinstance(v, Decimal):
         return "d" + str(v.normalize())
@@ -648,19 +853,22 @@ def variants(case):
     return out
 
 
-def oracle(case):
+def oracle(case, by_backing=None):
     """Evaluate the property on the implementation alone. Returns (clause|None, impl of first variant)."""
     want = mirror(case)
     first = None
     canon0 = None
     for b, p, c2 in variants(case):
         impl = run_impl(c2, b)
+        if by_backing is not None and p is None:
+            by_backing[b] = [impl]
         if first is None:
             first = impl
         w2 = want if p is None else mirror(c2)
         cl = compare(c2, impl, w2)
         if cl is not None:
-            where = "" if (b == "list" and p is None) else (" [%s-backed]" % b if p is None else " [rows permuted]")
+            where = "" if (b == "list" and p is None) else (
+                " [%s-backed]" % ("gen" if b == "gen" else "lazily " + b if b in LAZY else b) if p is None else " [rows permuted]")
             return cl + where, impl
         can = canonical(impl)
         if canon0 is None:
@@ -674,7 +882,9 @@ def oracle(case):
 _SEEN_CLAUSES = {}
 
 
-def evaluate(ctx, cases):
+def evaluate(ctx, cases, code_every=1):
+    """`code_every`: the code-level model (the program read from the source) is asked about every n-th
+    single-call case of an exhaustive scope; sequences, corpus, collision and random cases always."""
     cases = list(cases)
     seqs = [c for c in cases if "seq" in c]
     if seqs:
@@ -684,7 +894,15 @@ def evaluate(ctx, cases):
         return
     lines = [model_line(c) for c in cases]
     mouts = ctx.model.batch(lines)
-    for c, mo in zip(cases, mouts):
+    clines, cspans = [], []
+    for i, c in enumerate(cases):
+        sq = as_seq(c)
+        cl = [] if i % code_every else [(z, code_line_seq(sq, z)) for z in sorted({b in LAZY for b in c.get("backings", ["list"])})]
+        cl = [(z, l) for z, l in cl if l is not None]
+        cspans.append((len(clines), [z for z, _ in cl]))
+        clines.extend(l for _, l in cl)
+    couts = ctx.model.batch(clines)
+    for c, mo, (clo, zs) in zip(cases, mouts, cspans):
         if not valid_case(c):
             raise InfraError("generator produced an invalid case: %r" % (c,))
         if not in_domain(c):
@@ -720,7 +938,8 @@ def evaluate(ctx, cases):
             ctx.hit("values:%s scale:%d%s" % (c.get("vkind", "number"), c.get("scale", 1), "m" if c.get("mixed") else ""))
         if len(ctx.violations) >= 4:
             return  # enough distinct failing inputs; do not spend the budget on more of the same
-        clause, impl = oracle(c)
+        by_backing = {}
+        clause, impl = oracle(c, by_backing)
         if clause is not None and _norm(clause) in _SEEN_CLAUSES.setdefault(id(ctx), set()):
             ctx.hit("violation-dup:" + _norm(clause))
             continue
@@ -734,12 +953,13 @@ def evaluate(ctx, cases):
                 except InfraError:
                     return False
             c_min = c if ctx.replaying else shrink(_shrinkable(c), still)
-            cl2, impl2 = oracle(c_min)
+            by2 = {}
+            cl2, impl2 = oracle(c_min, by2)
             try:
                 m2 = model_result(c_min, ctx.model.one(model_line(c_min)))
             except InfraError:
                 m2 = None
-            ctx.fail(c_min, cl2 or clause, impl=_show(impl2), model=_show(m2))
+            ctx.fail(c_min, cl2 or clause, impl=_show(impl2), model=_show(m2), detail=_code_detail(ctx, as_seq(c_min), by2))
             continue
         # correspondence proper: the model's answer against the implementation's (first variant)
         cl = compare(c, impl, mres)
@@ -749,6 +969,9 @@ def evaluate(ctx, cases):
             ctx.hit("layout-differs-from-model(order only; not part of the property)")
         else:
             ctx.hit("layout:labels-then-keys,first-occurrence-order")
+        if cl is None and zs:
+            sq = as_seq(c)
+            _code_verdict(ctx, sq, by_backing, {z: code_results_seq(sq, couts[clo + j]) for j, z in enumerate(zs)}, [mres])
 
 
 def _shrinkable(c):
@@ -762,7 +985,7 @@ def _shrinkable(c):
 def _show(res):
     if res is None:
         return None
-    if res[0] == "err":
+    if res[0] in ("err", "noop"):
         return list(res)
     return ["ok", res[1], [[str(x) if isinstance(x, (Fraction, Decimal)) else x for x in r] for r in res[2]]]
 
@@ -797,7 +1020,30 @@ def exhaustive_frames(ctx, nmax, alphabet, reqlists, backings, scale_cycle):
             for reqs in reqlists:
                 s, m = scale_cycle[i % len(scale_cycle)]
                 i += 1
-                yield base(rows, reqs, backings=backings, scale=s, mixed=m)
+                # the lazily backed variant cycles through every way of getting a lazily backed frame
+                bk = [LAZY_CYCLE[(i // 3) % len(LAZY_CYCLE)] if b == "gen" else b for b in backings]
+                yield base(rows, reqs, backings=bk, scale=s, mixed=m)
+
+
+LAZY_CYCLE = ["gen", "select", "filter", "take", "gen", "genselect"]
+ODD_NAMES = ["é", "a b", "col(1)", "SUM", "日本", "v)", "(", "0", "None", "k.j", " ", "MIN(v", "K", "v "]
+
+
+def rename_columns(c, mapping):
+    """The same case with its columns renamed (keys, value columns and requests follow)."""
+    def m(x):
+        return mapping.get(x, x)
+    c2 = dict(c)
+    c2["columns"] = [m(x) for x in c["columns"]]
+    c2["vcols"] = [m(x) for x in c["vcols"]]
+    if "keys" in c:
+        c2["keys"] = [m(x) for x in c["keys"]]
+    if "reqs" in c:
+        c2["reqs"] = [[f, m(col)] for f, col in c["reqs"]]
+    if "gbs" in c:
+        c2["gbs"] = [[m(x) for x in g] for g in c["gbs"]]
+        c2["seq"] = [dict(el, reqs=[[f, m(col)] for f, col in el["reqs"]]) if "reqs" in el else dict(el) for el in c["seq"]]
+    return c2
 
 
 REPRESENTATIVE = [
@@ -846,11 +1092,13 @@ def random_case(ctx, big=False):
         n = rng.choice([30, 60, 120, 250])
     else:
         n = rng.choice([0, 1, 2, 3, 4, 5, 6, 8, 12, 20])
-    vkind = rng.choice(["number"] * 8 + ["text", "decimal"])
+    vkind = rng.choice(["number"] * 7 + ["text", "decimal", "decimal", "bool"])
     if vkind == "text":
         scale, mixed, mag = 1, False, None
+    elif vkind == "bool":
+        scale, mixed, mag = 1, False, None
     elif vkind == "decimal":
-        scale, mixed = rng.choice(DECIMAL_SCALES), False
+        scale, mixed = rng.choice(DECIMAL_SCALES), rng.random() < 0.4  # mixed: ints among the Decimals
         mag = rng.choice([3, 20, 1000, 10**15])
     else:
         scale, mixed = rng.choice([(1, False), (1, False), (4, False), (4, True), (8, True)])
@@ -862,7 +1110,8 @@ def random_case(ctx, big=False):
     for _ in range(n):
         key = list(rng.choice(small)) if rng.random() < 0.8 else [gen_key_value(rng, f) for f in families]
         vals = [None if rng.random() < pnull else
-                (rng.randrange(len(TEXT_RANKS)) if vkind == "text" else rng.randint(-mag, mag)) for _ in vcols]
+                (rng.randrange(len(TEXT_RANKS)) if vkind == "text" else rng.randrange(2) if vkind == "bool"
+                 else rng.randint(-mag, mag)) for _ in vcols]
         full = key + vals + ["p" for _ in extra]
         rows.append([full[i] for i in order])
     cols = [cols[i] for i in order]
@@ -880,6 +1129,8 @@ def random_case(ctx, big=False):
     c = {"columns": cols, "vcols": list(vcols), "keys": keys, "rows": rows, "scale": scale, "mixed": mixed}
     if vkind != "number":
         c["vkind"] = vkind
+    elif scale > 1 and not mixed and rng.random() < 0.3:
+        c["negzero"] = True  # float zeros are -0.0
     r = rng.random()
     if r < 0.08:
         c["op"] = "groups"
@@ -893,12 +1144,18 @@ def random_case(ctx, big=False):
             k = rng.choice([1, 1, 2, 3])
             c["reqs"] = [[WRAPPERS[via], rng.choice(vcols)] for _ in range(k)]
             c["bare_col"] = rng.random() < 0.5
+            c["col_container"] = rng.choice(["list", "list", "tuple", "set"])
     else:
         k = rng.choice([1, 1, 2, 2, 3, 3, 4, 6])
         c["reqs"] = [rng.choice([["COUNT", "*"]] + [[f, v] for f in funcs for v in vcols]) for _ in range(k)]
+        if k == 1 and rng.random() < 0.3:
+            c["via"] = "aggregate_bare"
     if len(keys) == 1:
         c["bare_key"] = rng.random() < 0.5
-    c["backings"] = rng.choice([["list"], ["gen"], ["list", "gen"], ["list", "gen", "dicts"], ["dicts"], ["schema", "gen"]])
+    if rng.random() < 0.2:
+        c["key_container"] = "tuple"
+    c["backings"] = rng.choice([["list"], ["gen"], ["list", "gen"], ["list", "gen", "dicts"], ["dicts"], ["schema", "gen"],
+                                ["select"], ["filter", "list"], ["take"], ["genselect", "dicts"], ["list", "take", "select"]])
     if 2 <= n <= 5 and rng.random() < 0.3:
         c["all_perms"] = True
     elif n > 5 and rng.random() < 0.3:
@@ -911,6 +1168,11 @@ def random_case(ctx, big=False):
         c["perms"] = ps
     if rng.random() < 0.03 and c.get("op") != "groups" and c.get("via", "aggregate") == "aggregate":
         c["keys"] = c["keys"] + ["nope"]  # a key column that is not in the frame (correspondence only)
+    if rng.random() < 0.15:
+        names = rng.sample(ODD_NAMES, len(c["columns"])) if len(c["columns"]) <= len(ODD_NAMES) else []
+        c2 = rename_columns(c, dict(zip(c["columns"], names)))
+        if names and valid_case(c2):
+            c = c2  # non-ASCII names, blanks, parentheses, names that look like labels or numbers
     if not in_domain(c):
         return random_case(ctx, big)
     return c
@@ -927,7 +1189,7 @@ def collision_case(ctx):
     cols = ["k0", "k1"][:nk] + ["v", "w"]
     reqs = rng.choice([ALL_SIX, [["SUM", "v"], ["SUM", "w"], ["COUNT", "*"]], [["COUNT", "*"]]])
     return {"columns": cols, "vcols": ["v", "w"], "keys": cols[:nk], "rows": rows, "reqs": reqs, "scale": 1,
-            "backings": rng.choice([["list"], ["gen"]]), "all_perms": n <= 4}
+            "backings": rng.choice([["list"], ["gen"], ["select"], ["take"], ["filter"]]), "all_perms": n <= 4}
 
 
 SEQ_ALPHABET = [
@@ -963,11 +1225,20 @@ def exhaustive_sequences(ctx, maxlen):
         for n in range(1, maxlen + 1):
             for seq in itertools.product(SEQ_ALPHABET, repeat=n):
                 i += 1
-                back = ["list"] if i % 5 else ["list", ["gen", "dicts", "schema"][(i // 5) % 3]]
+                second = ["gen", "dicts", "schema", "select", "filter", "take", "genselect"]
+                back = ["list"] if i % 5 else ["list", second[(i // 5) % len(second)]]
                 yield seq_base(rows, seq, [["k", "j"]], back)
                 if n >= 2:
                     alt = [dict(e, gb=j % 2) for j, e in enumerate(seq)]
                     yield seq_base(rows, alt, [["k", "j"], ["j", "k"]], ["list"])
+                    if i % 3 == 0:
+                        # objects that group by different columns, on a lazily backed frame
+                        yield seq_base(rows, alt, [["k"], ["j", "k"]], [LAZY_CYCLE[(i // 3) % len(LAZY_CYCLE)]])
+                if n == 2:
+                    # the frame itself is used between the two calls (len / rowcount / one step of an iteration)
+                    mid = {"op": NOOPS[i % len(NOOPS)]}
+                    objs = [[["k", "j"], ["j"]], [["k"], ["j"]]][(i // 2) % 2]  # also: as many key columns, other ones
+                    yield seq_base(rows, [seq[0], mid, dict(seq[1], gb=i % 2)], objs, [LAZY_CYCLE[i % len(LAZY_CYCLE)]])
 
 
 def random_seq_case(ctx, big=False):
@@ -985,11 +1256,18 @@ def random_seq_case(ctx, big=False):
         gbs.append(k2)
         if rng.random() < 0.3:
             gbs.append(list(reversed(keys)))
+    if len(keys) >= 2 and rng.random() < 0.4:
+        gbs.append(rng.sample(keys, rng.randint(1, len(keys) - 1)))  # an object grouping by fewer columns
+        if rng.random() < 0.5:
+            gbs.append(rng.sample(keys, len(gbs[-1])))  # … and one grouping by as many columns, possibly others
     seq = []
     for _ in range(rng.choice([1, 2, 2, 3, 3, 4, 6])):
         r = rng.random()
-        if seq and r < 0.25:
-            el = dict(rng.choice(seq))  # an identical request again (possibly on another object)
+        if seq and rng.random() < 0.12:
+            seq.append({"op": rng.choice(NOOPS)})  # the frame itself is used between two calls
+        prior = [e for e in seq if not is_noop(e)]
+        if prior and r < 0.25:
+            el = dict(rng.choice(prior))  # an identical request again (possibly on another object)
         elif r < 0.4:
             el = {"op": "groups", "reqs": []}
         elif r < 0.6:
@@ -998,18 +1276,65 @@ def random_seq_case(ctx, big=False):
                 el = {"op": "aggregate", "via": "count", "reqs": [["COUNT", "*"]]}
             else:
                 el = {"op": "aggregate", "via": via, "bare_col": rng.random() < 0.5,
+                      "col_container": rng.choice(["list", "tuple", "set"]),
                       "reqs": [[WRAPPERS[via], rng.choice(vcols)] for _ in range(rng.choice([1, 1, 2]))]}
         else:
             el = {"op": "aggregate", "reqs": [rng.choice([["COUNT", "*"]] + [[f, v] for f in allowed_funcs(c) for v in vcols])
                                               for _ in range(rng.choice([1, 1, 2, 3, 4]))]}
         el["gb"] = rng.randrange(len(gbs))
+        el.pop("bare_key", None)
         if len(gbs[el["gb"]]) == 1:
             el["bare_key"] = bool(c.get("bare_key"))
         seq.append(el)
     out = {k: c[k] for k in SUB_KEYS if k in c}
     out.update({"gbs": gbs, "seq": seq,
-                "backings": rng.choice([["list"], ["list"], ["gen"], ["dicts"], ["schema"], ["list", "gen"]])})
+                "backings": rng.choice([["list"], ["list"], ["gen"], ["dicts"], ["schema"], ["list", "gen"], ["select"],
+                                        ["filter"], ["take"], ["genselect"], ["take", "list"]])})
+    if not valid_seq_case(out) or not all(in_domain(sub_case(out, el)) for el in out["seq"] if not is_noop(el)):
+        return random_seq_case(ctx, big)
     return out
+
+
+def observe_outside_domain(ctx):
+    """Inputs the property does not speak about (see design_notes/C12.md, "What the property demands of the
+    values"): what orso does with them is recorded in the evidence and never judged."""
+    from orso import DataFrame
+
+    nan = float("nan")
+
+    def obs(name, fn):
+        try:
+            r = fn()
+        except Exception as e:  # noqa: BLE001 - the class is the observation
+            r = "raises " + type(e).__name__
+        ctx.hit("outside-domain:%s:%s" % (name, r))
+
+    def agg(rows, reqs, cols=("k", "v"), keys="k"):
+        res = DataFrame(rows=list(rows), schema=list(cols)).group_by(keys).aggregate(list(reqs))
+        return [tuple(r) for r in res]
+
+    def same(a, b):
+        return "order-independent" if repr(a) == repr(b) else "depends-on-row-order"
+
+    # MIN / MAX need a total order on the values (theorem min_of_total_order_ignores_row_order)
+    obs("min-over-nan", lambda: same(agg([("a", nan), ("a", 1.0)], [("MIN", "v")]), agg([("a", 1.0), ("a", nan)], [("MIN", "v")])))
+    obs("count-over-nan", lambda: "counts-nan-as-a-value" if agg([("a", nan), ("a", None)], [("COUNT", "v")])[0][0] == 1 else "other")
+    obs("min-over-int-and-text", lambda: agg([("a", 1), ("a", "x")], [("MIN", "v")]) and "returns")
+    obs("count-over-int-and-text", lambda: "counts" if agg([("a", 1), ("a", "x")], [("COUNT", "v")])[0][0] == 2 else "other")
+    obs("sum-over-float-and-decimal", lambda: agg([("a", 0.5), ("a", Decimal("0.5"))], [("SUM", "v")]) and "returns")
+    obs("sum-over-text", lambda: agg([("a", "x")], [("SUM", "v")]) and "returns")
+    # keys: grouping is by Python equality of the key tuples
+    obs("keys-True-and-1", lambda: "%d group(s)" % len(agg([(True, 1), (1, 2)], [("COUNT", "*")])))
+    obs("keys-1-and-1.0", lambda: "%d group(s)" % len(agg([(1, 1), (1.0, 2)], [("COUNT", "*")])))
+    obs("keys-0.0-and--0.0", lambda: "%d group(s)" % len(agg([(0.0, 1), (-0.0, 2)], [("COUNT", "*")])))
+    obs("keys-two-nan-objects", lambda: "%d group(s)" % len(agg([(float("nan"), 1), (float("nan"), 2)], [("COUNT", "*")])))
+    obs("keys-one-nan-object-twice", lambda: "%d group(s)" % len(agg([(nan, 1), (nan, 2)], [("COUNT", "*")])))
+    obs("key-unhashable", lambda: agg([([1], 1)], [("COUNT", "*")]) and "returns")
+    # requests
+    obs("no-requests", lambda: "%d row(s) for 2 keys" % len(agg([("a", 1), ("b", 2)], [])))
+    obs("function-not-in-AGGREGATORS", lambda: agg([("a", 1)], [("MEDIAN", "v")]) and "returns")
+    obs("column-not-in-frame-SUM", lambda: agg([("a", 1)], [("SUM", "nope")]) and "returns")
+    obs("column-not-in-frame-COUNT", lambda: "counts-rows" if agg([("a", 1), ("a", None)], [("COUNT", "nope")])[0][0] == 2 else "other")
 
 
 def corpus_cases():
@@ -1024,20 +1349,20 @@ def corpus_cases():
     return out
 
 
-def _batches(ctx, gen, size=2000):
+def _batches(ctx, gen, size=2000, code_every=1):
     batch = []
     total = 0
     for c in gen:
         batch.append(c)
         if len(batch) >= size:
-            evaluate(ctx, batch)
+            evaluate(ctx, batch, code_every)
             total += len(batch)
             batch = []
             if ctx.violations:
                 return total
             if ctx.time_left() < 0:
                 raise InfraError("time budget exhausted inside an exhaustive scope")
-    evaluate(ctx, batch)
+    evaluate(ctx, batch, code_every)
     return total + len(batch)
 
 
@@ -1053,15 +1378,21 @@ def run(ctx):
         "output order (of rows and of columns) is not part of the property: columns are matched by name, rows by key; "
         "whether the implementation also has the model's layout is recorded in input_distribution",
     ])
+    import time
+    secs = {}
+    t0 = time.time()
     evaluate(ctx, corpus_cases())
+    observe_outside_domain(ctx)
     scope = []
     # E1: every frame of 0..n rows over a 12-row alphabet (colliding keys, nulls, all-null groups),
     #     four request lists, all three backings
     n1 = ctx.scale(3, 4)
     a1 = row_alphabet([-1, -2], [None, 1, 2], [None, 5])
     t = _batches(ctx, exhaustive_frames(ctx, n1, a1, FIXED_REQS, ["list", "gen", "dicts"],
-                                        [(1, False), (4, False), (4, True)]))
-    scope.append("all frames of 0..%d rows over %d distinct rows x %d request lists x 3 backings (%d cases)" % (n1, len(a1), len(FIXED_REQS), t))
+                                        [(1, False), (4, False), (4, True)]), code_every=3)
+    scope.append("all frames of 0..%d rows over %d distinct rows x %d request lists x 3 backings (list, dictionaries, and a lazily "
+                 "backed one cycling through generator / select / filter / take) (%d cases)" % (n1, len(a1), len(FIXED_REQS), t))
+    secs["E1"] = round(time.time() - t0, 1)
     # E2: every frame of 4..6 rows over a 4-row alphabet, with every permutation class covered by closure
     n2 = 6
     a2 = row_alphabet([-1, -2], [None, 1], [3])
@@ -1071,8 +1402,9 @@ def run(ctx):
                 yield base(rows, ALL_SIX, backings=["gen"] if n % 2 else ["list"])
                 if n < 6 or ctx.tier == "thorough":
                     yield base(rows, [["SUM", "v"], ["SUM", "v"], ["COUNT", "v"]], backings=["list"])
-    t = _batches(ctx, e2())
+    t = _batches(ctx, e2(), code_every=3)
     scope.append("all frames of 4..%d rows over %d distinct rows x 1-2 request lists (%d cases)" % (n2, len(a2), t))
+    secs["E2"] = round(time.time() - t0, 1)
     # E3: every request list of length <= 3 over 11 requests, on representative frames
     reps = REPRESENTATIVE[: ctx.scale(7, len(REPRESENTATIVE))]
     def e3():
@@ -1080,8 +1412,9 @@ def run(ctx):
             for k in (1, 2, 3):
                 for reqs in itertools.product(REQ_ALPHABET, repeat=k):
                     yield base(rows, reqs, backings=["list"])
-    t = _batches(ctx, e3())
+    t = _batches(ctx, e3(), code_every=3)
     scope.append("all request lists of length 1..3 over %d requests on %d representative frames (%d cases)" % (len(REQ_ALPHABET), len(reps), t))
+    secs["E3"] = round(time.time() - t0, 1)
     # E4: every permutation of frames of <= 5 rows
     def e4():
         for rows in REPRESENTATIVE:
@@ -1093,19 +1426,25 @@ def run(ctx):
     # E5: every sequence of <= 3 calls over 8 calls on ONE GroupBy object (and alternating between two)
     t = _batches(ctx, exhaustive_sequences(ctx, 3), size=1000)
     scope.append("all sequences of 1..3 calls over %d calls (aggregate lists, sum/avg/min/count wrappers, groups) on one GroupBy "
-                 "object, and alternating between two objects with the key columns in both orders, on %d frames (%d cases)"
+                 "object, alternating between two objects with the key columns in both orders, every third also between two "
+                 "objects with different key columns on a lazily backed frame, and every pair of calls with a use of the frame "
+                 "itself (len / rowcount / one step of an iteration) in between, on %d frames (%d cases)"
                  % (len(SEQ_ALPHABET), len(SEQ_FRAMES), t))
+    secs["E5"] = round(time.time() - t0, 1)
     ctx.note("exhaustive_scope", scope)
     ctx.exhaustive = False
     # the dedicated stream of unequal keys with equal hashes
     evaluate(ctx, [collision_case(ctx) for _ in range(ctx.scale(400, 5000))])
     n_random = ctx.scale(4000, 60000)
     done = 0
-    while done < n_random and ctx.time_left() > (8 if ctx.tier == "quick" else 60):
+    # at least 1000 random cases whatever the load on the machine (the widest generators live here)
+    while done < n_random and (done < 1000 or ctx.time_left() > (3 if ctx.tier == "quick" else 60)) and not ctx.violations:
         evaluate(ctx, [random_case(ctx, big=(i % 25 == 24)) for i in range(350)]
                  + [random_seq_case(ctx, big=(i % 25 == 24)) for i in range(150)])
         done += 500
     ctx.note("random_cases", done)
+    secs["random"] = round(time.time() - t0, 1)
+    ctx.note("seconds_at_end_of_scope", secs)
 
 
 def intensify(ctx):
